@@ -131,11 +131,6 @@ class Selector:
                 continue
             if isinstance(n, (ast.FunctionDef, ast.AsyncFunctionDef, ast.ClassDef, ast.Global, ast.Nonlocal, ast.Await)):
                 return False
-            if isinstance(n, ast.Lambda):
-                # a lambda may not capture the helper's locals (they are renamed, lambdas are not rewritten)
-                inner = {x.id for x in ast.walk(n.body) if isinstance(x, ast.Name)} - {x.arg for x in n.args.args}
-                if inner & _local_names(node):
-                    return False
             if isinstance(n, ast.Call) and isinstance(n.func, ast.Name) and n.func.id in ("locals", "vars", "globals", "super", "eval", "exec"):
                 return False
             if isinstance(n, ast.Yield) and not _is_stmt_yield(node, n):
@@ -243,6 +238,18 @@ class _Rename(ast.NodeTransformer):
             h.name = rep
         return self.generic_visit(h)
 
+    def visit_Lambda(self, n: ast.Lambda):
+        shadow = {a.arg for a in n.args.posonlyargs + n.args.args + n.args.kwonlyargs}
+        if n.args.vararg:
+            shadow.add(n.args.vararg.arg)
+        if n.args.kwarg:
+            shadow.add(n.args.kwarg.arg)
+        hidden = {k: self.m.pop(k) for k in list(self.m) if k in shadow}
+        try:
+            return self.generic_visit(n)
+        finally:
+            self.m.update(hidden)
+
 
 def _contains_return(st: ast.AST) -> bool:
     return any(isinstance(x, ast.Return) for x in ast.walk(st))
@@ -318,6 +325,38 @@ def _has_loop_control(body: List[ast.stmt]) -> bool:
                     return True
         return False
     return walk(body)
+
+
+def _yields_in_tail_position(fn: ast.FunctionDef) -> bool:
+    """every ``yield`` of the generator is the last thing its innermost enclosing loop does in an iteration (and it has such
+    a loop): a ``continue`` placed where the yield is then continues exactly that loop"""
+    ok = True
+    found = False
+
+    def walk(stmts: List[ast.stmt], loop_tail: Optional[bool]):
+        # loop_tail: None outside any loop; True if this block's last statement ends the loop iteration
+        nonlocal ok, found
+        for i, s in enumerate(stmts):
+            last = i == len(stmts) - 1
+            tail = bool(loop_tail) and last
+            if isinstance(s, ast.Expr) and isinstance(s.value, (ast.Yield, ast.YieldFrom)):
+                found = True
+                if isinstance(s.value, ast.YieldFrom) or not tail:
+                    ok = False
+            elif isinstance(s, (ast.For, ast.While)):
+                walk(s.body, True)
+                walk(s.orelse, tail if loop_tail is not None else None)
+            elif isinstance(s, ast.If):
+                walk(s.body, tail if loop_tail is not None else None)
+                walk(s.orelse, tail if loop_tail is not None else None)
+            elif isinstance(s, (ast.With,)):
+                walk(s.body, tail if loop_tail is not None else None)
+            elif isinstance(s, ast.Try):
+                for b in [s.body, s.orelse, s.finalbody] + [h.body for h in s.handlers]:
+                    if any(isinstance(x, (ast.Yield, ast.YieldFrom)) for y in b for x in ast.walk(y)):
+                        ok = False
+    walk(fn.body, None)
+    return ok and found
 
 
 class _YieldTo(ast.NodeTransformer):
@@ -518,8 +557,10 @@ class Inliner:
         rw = _Returns(target if mode == "assign" else None, flag)
         if mode == "for":
             assert loop is not None
-            if loop.orelse or _has_loop_control(loop.body):
+            if loop.orelse or _own_level(loop.body, (ast.Break,)):
                 return None
+            if _own_level(loop.body, (ast.Continue,)) and not _yields_in_tail_position(t.node):
+                return None  # `continue` means "resume after the yield": only the same thing when nothing follows the yield
             body = rw.block(body, 0)
             yt = _YieldTo(loop.target, loop.body)
             new_body = []
@@ -609,7 +650,7 @@ class Inliner:
                 return rep
         if isinstance(st, ast.For) and isinstance(st.iter, ast.Call):
             got = self.sel.target_of(scope, st.iter)
-            if got is not None and got[2] == "gen" and not st.orelse and not _has_loop_control(st.body):
+            if got is not None and got[2] == "gen" and not st.orelse and not _own_level(st.body, (ast.Break,)):
                 st.body = self.block(scope, st.body, depth)
                 rep = self.inline_call(scope, st.iter, "for", None, st, depth, loop=st)
                 if rep is not None:
@@ -943,9 +984,23 @@ def unreduce(fn: ast.AST) -> int:
                 continue
             c = st.value
             fnm = norm(c.func)
-            if fnm not in ("reduce", "functools.reduce") or len(c.args) != 3 or c.keywords or not isinstance(c.args[0], ast.Lambda):
+            if fnm not in ("reduce", "functools.reduce") or len(c.args) != 3 or c.keywords:
                 continue
-            lam = c.args[0]
+            if isinstance(c.args[0], (ast.Name, ast.Attribute)):
+                # reduce(f, xs, init) with a named function: as if written with `lambda acc, item: f(acc, item)`
+                an, xn = "_h0_acc", "_h0_item"
+                k = 0
+                while an in taken or xn in taken:
+                    k += 1
+                    an, xn = f"_h0_acc{k}", f"_h0_item{k}"
+                taken |= {an, xn}
+                lam = ast.Lambda(args=ast.arguments(posonlyargs=[], args=[ast.arg(arg=an), ast.arg(arg=xn)], kwonlyargs=[], kw_defaults=[], defaults=[]),
+                                 body=ast.copy_location(ast.Call(func=c.args[0], args=[ast.Name(id=an, ctx=ast.Load()), ast.Name(id=xn, ctx=ast.Load())],
+                                                                 keywords=[]), c))
+            elif isinstance(c.args[0], ast.Lambda):
+                lam = c.args[0]
+            else:
+                continue
             ps = [a.arg for a in lam.args.args]
             if len(ps) != 2 or lam.args.vararg or lam.args.kwarg or lam.args.defaults:
                 continue
@@ -1330,6 +1385,39 @@ def normalise(p: Program, vocab: Optional[Set[str]] = None) -> Tuple[Dict[str, a
             if fold_tuples(tgt):
                 forward_substitute(tgt)
             changed.add(f.module.name)
+    # module-level code (the configuration loaders run their loops there): the module body as a pseudo function
+    for m in p.modules.values():
+        if m.name not in copies or m.name in SKIP_MODULES:
+            continue
+        tree = copies[m.name]
+        plain = [st for st in tree.body if not isinstance(st, (ast.FunctionDef, ast.AsyncFunctionDef, ast.ClassDef))]
+        if not any(isinstance(x, ast.Call) for st in plain for x in ast.walk(st)):
+            continue
+        pseudo_node = ast.FunctionDef(name="<module>", args=ast.arguments(posonlyargs=[], args=[], kwonlyargs=[], kw_defaults=[], defaults=[]),
+                                      body=[st for st in m.tree.body if not isinstance(st, (ast.FunctionDef, ast.AsyncFunctionDef, ast.ClassDef))],
+                                      decorator_list=[], lineno=1, col_offset=0)
+        scope = FunctionInfo(qualname=f"{m.name}.<module>", name="<module>", module=m, node=pseudo_node)
+        holder = ast.FunctionDef(name="<module>", args=pseudo_node.args, body=tree.body, decorator_list=[], lineno=1, col_offset=0)
+        before = len(inl.log)
+
+        def _wants_m(comp, _f=scope):
+            return any(isinstance(x, ast.Call) and inl.sel.target_of(_f, x) is not None for x in ast.walk(comp))
+
+        fused = 0
+        for _round in range(3):
+            mark = (len(inl.log), fused)
+            fused += fuse_generators(holder)
+            fused += unreduce(holder)
+            holder.body = inl.block(scope, holder.body, MAX_DEPTH)
+            if mark == (len(inl.log), fused):
+                break
+        if len(inl.log) > before:
+            forward_substitute(holder)
+            if fold_tuples(holder):
+                forward_substitute(holder)
+            n_unrolled += fused
+            tree.body = holder.body
+            changed.add(m.name)
     if not inl.log and not n_unrolled:
         return {}, {"inlined_calls": 0, "helpers": [], "removed": [], "unrolled_tables": 0}
     helpers = sorted({h for _, h in inl.log})
